@@ -47,7 +47,7 @@ InputOK(H, inp, src) == inp.t = "emb" /\ src # "none" => inp.stamp = H[src]
 \* ------------------------------------------------------------------ listings (C09)
 (* Entry classes of generated outboxes / reply collections / author lists, with the ground truth the
    generator builds into the world: does the entry really belong to the owner?                       *)
-OutboxClasses == {"legit_emb", "legit_ref", "legit_actor_emb", "legit_noid", "legit_stub", "legit_announce", "legit_author_no_actor",
+OutboxClasses == {"legit_emb", "legit_ref", "legit_actor_emb", "legit_noid", "legit_stub", "legit_announce", "legit_author_no_actor", "legit_announce_wrapped",
                   "other_actor", "other_actor_samehost_query", "other_actor_case", "no_actor", "fetch_fails", "not_activity",
                   "foreign_claims_owner_id", "actor_fetch_fails",
                   "anon_actor",
@@ -57,7 +57,7 @@ ReplyClasses  == {"legit_emb", "legit_ref", "legit_stub", "legit_author_no_actor
                   "anon_parent",
                   "redirected_forged"}     \* the same for a reply: the other host's note claims an id, an author and a parent on the owner's host           \* a reply without an id whose reply target is an embedded object without an id
 Legit(class) == class \in {"legit_emb", "legit_ref", "legit_actor_emb", "legit_noid", "legit_stub", "legit_announce",
-                          "legit_author_no_actor"}   \* a genuine entry whose post names, as its author, something of another host that is no actor
+                          "legit_author_no_actor", "legit_announce_wrapped"}   \* a genuine entry whose post names, as its author, something of another host that is no actor
 
 (* shown[i] \in {"genuine", "error"}: what the real listing showed at position i *)
 ListingOK(classes, shown) ==
